@@ -196,6 +196,7 @@ func genC18(t *rapid.T) interface{} {
 }
 
 type c18Node struct {
+	handle    *DetachableBackend
 	env       *SeqEnv
 	rec       *recBackend
 	proxy     *recProxy
@@ -217,7 +218,8 @@ func newC18Node(role string, proxy bool, leaderState string) (*c18Node, error) {
 	if err != nil {
 		return nil, err
 	}
-	n := &c18Node{env: env, rec: &recBackend{inner: env.B}, proxy: &recProxy{enabled: proxy}}
+	handle := NewDetachable(env.B) // brain.New's background loop would keep the real backend alive for ever
+	n := &c18Node{env: env, rec: &recBackend{inner: handle}, proxy: &recProxy{enabled: proxy}, handle: handle}
 	n.state.Store(leaderState)
 	n.srv = httptest.NewServer(http.HandlerFunc(func(w http.ResponseWriter, req *http.Request) {
 		atomic.AddInt64(&n.httpHits, 1)
@@ -278,6 +280,7 @@ func (n *c18Node) close() {
 		n.srv.Close()
 	}
 	n.env.Close()
+	n.handle.Detach()
 }
 
 // issue performs one request through the gRPC handler objects; returns (error, whether a response object came back)
